@@ -16,6 +16,8 @@ if [ -n "$VERIF_REPO" ]; then
 fi
 build() {
   mkdir -p bin
+  # second binary: fastgo's portable code paths (what a non-amd64 build compiles)
+  ( cd sim && go build $MODFLAG -tags "verif noasmtest" -o ../bin/fgsim-portable ./cmd/fgsim ) || { echo "BUILD FAILED (portable build, -tags noasmtest)" >&2; exit 2; }
   ( cd sim && go build $MODFLAG -tags verif -o ../bin/fgsim ./cmd/fgsim ) || { echo "BUILD FAILED (fastgo or the simulator does not compile)" >&2; exit 2; }
 }
 case "$1" in
